@@ -6,13 +6,13 @@ CONSTANTS
   CapRes = 2
   Kinds = {"simple", "drop", "distinct", "lookup1", "lookup2", "count", "limit", "both", "agg"}
   MaxStages = 3
-  Ns = {0, 1, 2, 3, 5, 6, 13}
+  Ns = {0, 1, 3, 6, 13}
   Fs = {1, 0, 2, 3}
-  Ks = {99, 0, 1, 5}
+  Ks = {99, 0, 2}
   LimitL = 1
   AggA = 2
   BothDrain = "concurrent"
-  MaxWork = 60
+  MaxWork = 100
   Reduce = TRUE
   Survey = FALSE
 INIT Init
